@@ -1,5 +1,6 @@
 """C17 - percolation-based probability/size estimators compute what they document (exhaustive small digraphs + random)."""
 import random
+import numpy as np
 import networkx as nx
 from .. import gen, simcase, rngprobe
 from ..runner import new_result, viol, bump, case_seed
@@ -14,7 +15,7 @@ RULE = ('dir: estimate_SIR_prob_size_from_dir_perc on EVERY labelled digraph wit
 ASSUMPTIONS = ['"a largest SCC": any of several equally large components is accepted']
 BUDGET = {'quick': 150, 'thorough': 1200}
 CHUNK = {'quick': 100, 'thorough': 300}
-REQUIRED = ['multigraph_inputs', 'nm_mapping_form_defaultdict', 'nm_mapping_form_extra_keys', 'dir_checked', 'tie_scc_cases', 'est_checked', 'dest_checked', 'nm_checked', 'nmt_checked', 'arcs_rule_checked']
+REQUIRED = ['nm_rule_answers_numpy', 'multigraph_inputs', 'nm_mapping_form_defaultdict', 'nm_mapping_form_extra_keys', 'dir_checked', 'tie_scc_cases', 'est_checked', 'dest_checked', 'nm_checked', 'nmt_checked', 'arcs_rule_checked']
 INF = float('inf')
 
 
@@ -222,11 +223,15 @@ def run_case(case):
             for extra in ('__not_a_node__', ('ghost', 1), -10 ** 6):
                 xi[extra] = 1.5
                 zeta[extra] = 2.0
+        # the rule's answer is a truth value: a builtin bool, what a numpy comparison returns (numpy.bool_), or 1 / 0
+        ans = r.choice(['bool', 'bool', 'numpy', 'int'])
+        bump(res, 'nm_rule_answers_' + ans)
+        rule_fn = transmission if ans == 'bool' else ((lambda x, z, _t=transmission: np.bool_(_t(x, z))) if ans == 'numpy' else (lambda x, z, _t=transmission: int(_t(x, z))))
         orig, tap = capture('nonMarkov_directed_percolate_network')
         sim.nonMarkov_directed_percolate_network = tap
         try:
-            got = EoN.estimate_nonMarkov_SIR_prob_size(G, xi, zeta, transmission)
-            Hd = EoN.nonMarkov_directed_percolate_network(G, xi, zeta, transmission)
+            got = EoN.estimate_nonMarkov_SIR_prob_size(G, xi, zeta, rule_fn)
+            Hd = EoN.nonMarkov_directed_percolate_network(G, xi, zeta, rule_fn)
         except Exception as e:
             viol(res, 'estimate_nonMarkov_SIR_prob_size|exception:%s' % simcase.exc_key(e), {'err': repr(e)})
             return res
